@@ -25,6 +25,8 @@ func main() {
 	if os.Getenv("GOGC") == "" {
 		debug.SetGCPercent(800)
 	}
+	// a tree under test may leak or grow buffers without bound: collect aggressively near the limit
+	debug.SetMemoryLimit(16 << 30)
 	switch os.Args[1] {
 	case "list":
 		for _, id := range checks.IDs() {
@@ -48,6 +50,14 @@ func main() {
 		sh, _ := strconv.Atoi(os.Args[3])
 		n, _ := strconv.Atoi(os.Args[4])
 		checks.C16Shard(os.Args[2], sh, n)
+	case "c09solo":
+		checks.C09Solo()
+	case "c09race":
+		n := 50
+		if len(os.Args) > 2 {
+			n, _ = strconv.Atoi(os.Args[2])
+		}
+		checks.C09Race(n)
 	case "variant":
 		if len(os.Args) < 3 || checks.Get(os.Args[2]) == nil {
 			usage()
